@@ -1,7 +1,7 @@
 #!/usr/bin/env python3
 """T2 extractor for C16: generate, compile (against the glm tree given as argv[1]) and run a probe that prints
 one row per vec/mat/qua instantiation and configuration:
-  ROW cfg kind C R tsize talign isfloat aligned qual sizeof alignof vptr len lentype wxyz | off0 off1 ...
+  ROW cfg kind C R tsize talign isfloat aligned qual sizeof alignof vptr cvptr len lentype wxyz | off0 off1 ...
 kind: 0 vec (C = L, R = 1), 1 mat, 2 qua.  Offsets are byte offsets of the elements in index order
 (vec: v[i]; mat: m[c][r], column-major enumeration; qua: components x,y,z,w BY NAME).
 usage: layout_probe.py <glm-root> <out-rows-file> <cache-dir>"""
@@ -37,18 +37,18 @@ template<class V> static void offs_vec(V& v) { for (int i = 0; i < (int)v.length
 template<class M> static void offs_mat(M& m) { for (int c = 0; c < (int)m.length(); ++c) for (int r = 0; r < (int)m[0].length(); ++r) printf(" %d", (int)((char*)&m[c][r] - (char*)&m)); }
 template<class T, glm::qualifier Q, int L> static void row_vec(int cfg, int isf, int al, int q) {
   typedef glm::vec<L, T, Q> V; static V v;
-  printf("ROW %d 0 %d 1 %d %d %d %d %d %d %d %d %d %d %d |", cfg, L, (int)sizeof(T), (int)alignof(T), isf, al, q, (int)sizeof(V), (int)alignof(V),
-    (int)((char*)glm::value_ptr(v) - (char*)&v), (int)v.length(), (int)sizeof(typename V::length_type), 0);
+  printf("ROW %d 0 %d 1 %d %d %d %d %d %d %d %d %d %d %d %d |", cfg, L, (int)sizeof(T), (int)alignof(T), isf, al, q, (int)sizeof(V), (int)alignof(V),
+    (int)((char*)glm::value_ptr(v) - (char*)&v), (int)((char const*)glm::value_ptr(static_cast<V const&>(v)) - (char const*)&v), (int)v.length(), (int)sizeof(typename V::length_type), 0);
   offs_vec(v); printf("\\n"); }
 template<class T, glm::qualifier Q, int C, int R> static void row_mat(int cfg, int isf, int al, int q) {
   typedef glm::mat<C, R, T, Q> M; static M m;
-  printf("ROW %d 1 %d %d %d %d %d %d %d %d %d %d %d %d %d |", cfg, C, R, (int)sizeof(T), (int)alignof(T), isf, al, q, (int)sizeof(M), (int)alignof(M),
-    (int)((char*)glm::value_ptr(m) - (char*)&m), (int)m.length(), (int)sizeof(typename M::length_type), (int)sizeof(typename M::col_type));
+  printf("ROW %d 1 %d %d %d %d %d %d %d %d %d %d %d %d %d %d |", cfg, C, R, (int)sizeof(T), (int)alignof(T), isf, al, q, (int)sizeof(M), (int)alignof(M),
+    (int)((char*)glm::value_ptr(m) - (char*)&m), (int)((char const*)glm::value_ptr(static_cast<M const&>(m)) - (char const*)&m), (int)m.length(), (int)sizeof(typename M::length_type), (int)sizeof(typename M::col_type));
   offs_mat(m); printf("\\n"); }
 template<class T, glm::qualifier Q> static void row_qua(int cfg, int al, int q, int wxyz) {
   typedef glm::qua<T, Q> Qt; static Qt v;
-  printf("ROW %d 2 4 1 %d %d 1 %d %d %d %d %d %d %d %d | %d %d %d %d\\n", cfg, (int)sizeof(T), (int)alignof(T), al, q, (int)sizeof(Qt), (int)alignof(Qt),
-    (int)((char*)glm::value_ptr(v) - (char*)&v), (int)v.length(), (int)sizeof(typename Qt::length_type), wxyz,
+  printf("ROW %d 2 4 1 %d %d 1 %d %d %d %d %d %d %d %d %d | %d %d %d %d\\n", cfg, (int)sizeof(T), (int)alignof(T), al, q, (int)sizeof(Qt), (int)alignof(Qt),
+    (int)((char*)glm::value_ptr(v) - (char*)&v), (int)((char const*)glm::value_ptr(static_cast<Qt const&>(v)) - (char const*)&v), (int)v.length(), (int)sizeof(typename Qt::length_type), wxyz,
     (int)((char*)&v.x - (char*)&v), (int)((char*)&v.y - (char*)&v), (int)((char*)&v.z - (char*)&v), (int)((char*)&v.w - (char*)&v)); }
 int main() {''')
     quals = [('glm::packed_highp', 0, 0), ('glm::packed_mediump', 0, 1), ('glm::packed_lowp', 0, 2)]
